@@ -35,7 +35,10 @@ CHECKS = {
         text="Theorems: a defined name is decided by its own definition (defined_decides); an undefined name by the usable "
              "default rule, else deny, and deny on an empty rule set, never an exception of its own (undefined_decides); "
              "allow_iff states the property as one equivalence, for all rule stores, default-rule settings, names and "
-             "credentials. Correspondence: the small-universe table against the real Enforcer and an oracle written from the statement.",
+             "credentials; registered_name_own_definition: a name defined by registration and not by the files gets exactly its own "
+             "default check from the loader's merge, whatever the store holds under other names (incl. `default`). "
+             "Correspondence: the small-universe table against the real Enforcer and an oracle written from the statement; "
+             "600 decisions on enforcers with registered (plain / renamed / older-check) defaults and a file-defined default rule.",
         note="oslo.config option resolution is library behaviour.",
         technique="Lean 4 proof (case analysis over the model of Rules.__missing__/enforce) + differential correspondence",
         design="§7 C03"),
